@@ -13,7 +13,8 @@ Decls ==
    [fl |-> "q", outs |-> {"tA"}, ins |-> {I("tB", "a", "qMapped"), I("tB", "b", "qMappedDestroyReady")}],
    [fl |-> "q", outs |-> {},     ins |-> {I("tA", NoId, "qPrimary"), I("tB", NoId, "qMappedDestroyReady")}]}
 Ops == ReadOps \cup WriteOps \cup FinOps
-Opts(op) == CASE op \in {"create", "modify"} -> {"default", "noOwner"}
+Opts(op) == CASE op = "create" -> {"default", "noOwner"}
+              [] op = "modify" -> {"default", "noOwner", "phaseAny", "phaseTd"}
               [] op \in {"teardown", "destroy"} -> {"default", "ownerOther"}
               [] OTHER -> {"default"}
 Exs == {"absent", "self", "other", "none", "selfFin", "selfTd"}
